@@ -52,10 +52,17 @@ pub fn eval(b: &Prog) -> (Rope<'static>, String) {
   match b {
     Prog::New => (Rope::new(), String::new()),
     Prog::From(i) => (Rope::from(PIECES[*i % PIECES.len()]), PIECES[*i % PIECES.len()].to_string()),
-    Prog::FromIter(v) => (
-      Rope::from_iter(v.iter().map(|i| PIECES[*i % PIECES.len()])),
-      v.iter().map(|i| PIECES[*i % PIECES.len()]).collect(),
-    ),
+    Prog::FromIter(v) => {
+      let pieces = || v.iter().map(|i| PIECES[*i % PIECES.len()]);
+      // three spellings of the iterator (exact size hint; lower bound 0; collect::<Rope>() over a chain
+      // whose size hint is a sum), chosen by the content so that every evaluation makes the same call
+      let rope: Rope<'static> = match v.iter().sum::<usize>() % 3 {
+        0 => Rope::from_iter(pieces()),
+        1 => Rope::from_iter(pieces().filter(|p| p.len() < usize::MAX)),
+        _ => pieces().take(v.len() / 2).chain(pieces().skip(v.len() / 2)).filter(|_| true).collect(),
+      };
+      (rope, pieces().collect())
+    }
     Prog::Add(x, i) => {
       let (mut r, mut s) = eval(x);
       r.add(PIECES[*i % PIECES.len()]);
